@@ -474,7 +474,7 @@ class C07(Check):
 
 class C08(Check):
     pid = "C08"
-    lean_modules = ["MTProps.C08"]
+    lean_modules = ["MTProps.C08", "MTProps.CodeGraph"]
 
     def enum_lists(self, N, L, maxrec, weights=(0, 1, 2)):
         """all record lists over labels 0..N-1 in canonical first-appearance order"""
@@ -675,7 +675,7 @@ class C10(Check):
 
 class C11(Check):
     pid = "C11"
-    lean_modules = ["MTProps.C11"]
+    lean_modules = ["MTProps.C11", "MTProps.CodeGraph"]
 
     def body(self):
         rng = self.rng
@@ -763,7 +763,7 @@ class C11(Check):
 
 class C12(Check):
     pid = "C12"
-    lean_modules = ["MTProps.C12"]
+    lean_modules = ["MTProps.C12", "MTProps.CodeGraph"]
 
     def body(self):
         rng = self.rng
